@@ -177,12 +177,43 @@ Definition c11_multi_run (case obs : sx) : verdict :=
       if c11_multi_pred case obs then (if sx_eqb m obs then Agree else Differ m) else Violates m
   end.
 
+(* a history of gzip requests on ONE plugin (which = 4): case = (request ...), request = (read ...) as above, or 1 = a body
+   whose gzip header is bad (answered 400, no event).  Two of the good requests overlap in time (the harness holds one
+   inside controller.In while the other is served); every request still behaves as if alone. *)
+Definition c11_hist_model_one (r : sx) : option sx :=
+  match r with
+  | SZ 1 => Some (SL [SL []; SZ 400])
+  | _ => c11_model r
+  end.
+Definition c11_hist_pred_one (r o : sx) : bool :=
+  match r with
+  | SZ 1 => sx_eqb o (SL [SL []; SZ 400])
+  | _ => c11_pred r o
+  end.
+Definition c11_hist_run (case obs : sx) : verdict :=
+  match case, obs with
+  | SL reqs, SL outs =>
+      match opt_map c11_hist_model_one reqs with
+      | Some ms =>
+          let ok := (fix go (rs os : list sx) : bool :=
+                       match rs, os with
+                       | [], [] => true
+                       | r :: rs', o :: os' => c11_hist_pred_one r o && go rs' os'
+                       | _, _ => false
+                       end) reqs outs in
+          if ok then (if sx_eqb (SL ms) obs then Agree else Differ (SL ms)) else Violates (SL ms)
+      | None => BadCase
+      end
+  | _, _ => BadCase
+  end.
+
 (* entry point of the model runner (extracted, and evaluated by vm_compute in the cross-check):
-   0 / 2 = one request (plain / gzip), 1 = source-id pool, 3 = concurrent requests *)
+   0 / 2 = one request (plain / gzip), 1 = source-id pool, 3 = concurrent requests, 4 = gzip request history *)
 Definition c11_entry (which : Z) (case obs : sx) : verdict :=
   match which with
   | 0 | 2 => c11_run case obs
   | 3 => c11_multi_run case obs
+  | 4 => c11_hist_run case obs
   | _ => match c11_id_model case with
          | Some m => exact_verdict m obs
          | None => BadCase
